@@ -36,6 +36,9 @@ func (self ValueAnyObject) Display() (string, *VmInterrupt) {
 }
 
 func (self ValueAnyObject) IsEqual(other Value) (bool, *VmInterrupt) {
+	if other.Kind() != self.Kind() {
+		return false, nil // values of different kinds (elements of an `[any]`, content of a `{ ? }`) are not equal
+	}
 	otherObj := other.(ValueAnyObject)
 	if len(self.FieldsInternal) != len(otherObj.FieldsInternal) {
 		return false, nil // the loop below only shows self ⊆ other
